@@ -9,7 +9,8 @@
    pins of the constants, and concrete examples. *)
 From RM Require Import Model.SliderEvents Model.Drv20 Gen.Generated.
 From RM Require Import Proofs.SliderEventsFacts Proofs.SliderEventsIEEE Proofs.SliderEventsExact.
-From RM Require Import Proofs.SliderEventsNeg.
+From RM Require Import Proofs.SliderEventsNeg Proofs.SliderEventsMono.
+From Flocq Require Import BinarySingleNaN.
 From Coq Require Import Reals Sorting.Sorted.
 Open Scope Z_scope.
 
@@ -227,17 +228,22 @@ Theorem C20_exact_tick_fuel :
 Proof. exact span_dists_fuel. Qed.
 Print Assumptions C20_exact_tick_fuel.
 
-(* T20c (binary64), PARTIAL.  Full statement wanted:
-     "tick j of a span lies within j ulps of j * tick_dist, and tick times are
-      non-decreasing within a span when dur >= 0 and len > 0".
-   Proved for binary64 (part of C20_shape, restated): the tick distances are
-   the j-fold running sums and every one satisfies d <= len and
-   not (d >= len - mdfe), the literal loop guards of the source -- hence
-   "never within 10 ms of travel of the span end" holds in binary64 exactly
-   as the code tests it.  Missing: the rounding bound
-   |rsum td td j - (j+1)*td| <= j * ulp(len) of the running sum, and the
-   monotonicity of  d |-> span_start + (d / len) * dur  under round-to-nearest
-   (Flocq [round_le] on three operations). *)
+(* ---------- T20c: binary64 ---------- *)
+
+(* PARTIAL.  Full statement wanted for binary64:
+     "tick j of a span lies at j * tick_dist up to the rounding of the running
+      sum, never within 10 ms of travel of the span end, and the tick times
+      are non-decreasing within a span".
+   Proved below: (1) the tick distances are the j-fold running sums
+   d += tick_dist and every one satisfies  d <= len  and  not (d >= len -
+   mdfe), the literal loop guards of the source -- so "never within 10 ms of
+   travel of the span end" holds in binary64 exactly as the code tests it;
+   (2) weak chronological order of the ticks of a span (rounding can merge
+   neighbouring ticks, so "strictly" is false in binary64), provided no tick
+   time overflows.
+   Missing: the rounding bound  |rsum td td j - (j+1)*td| <= j * ulp(len)/2
+   of the running sum (an error analysis of j additions), and the order of
+   the repeat relative to the last tick of its span in binary64. *)
 Theorem C20_ieee_ticks_partial :
   forall (len mdfe td : F64) (ds : list F64),
   dists_ok ops64 len mdfe td ds ->
@@ -245,6 +251,24 @@ Theorem C20_ieee_ticks_partial :
   Forall (fun d => D.le d len = true /\ D.le (D.sub len mdfe) d = false) ds.
 Proof. intros len mdfe td ds (H1 & H2 & _). exact (conj H1 H2). Qed.
 Print Assumptions C20_ieee_ticks_partial.
+
+(* [Fle a b] is  B2R a <= B2R b ; for finite values it is the float <= *)
+Theorem C20_ieee_ticks_weakly_chronological :
+  forall (start dur len td : F64) (ds : list F64) (s : Z),
+  is_finite dur = true -> (0 <= B2R dur)%R -> is_finite len = true -> (0 < B2R len)%R ->
+  is_finite td = true -> (0 < B2R td)%R ->
+  ds = map (rsum ops64 td td) (seq 0 (length ds)) ->
+  Forall (fun e => is_finite (ev_time e) = true) (map (sp_tick ops64 start dur len s) ds) ->
+  StronglySorted Fle
+    (map ev_time (if Z.odd s then rev (map (sp_tick ops64 start dur len s) ds)
+                  else map (sp_tick ops64 start dur len s) ds)).
+Proof. exact ticks_weakly_chronological. Qed.
+Print Assumptions C20_ieee_ticks_weakly_chronological.
+
+Theorem C20_Fle_is_float_le :
+  forall a b : F64, is_finite a = true -> is_finite b = true -> Fle a b -> D.le a b = true.
+Proof. exact Fle_le. Qed.
+Print Assumptions C20_Fle_is_float_le.
 
 (* ---------- non-vacuity: concrete streams (bit patterns) ---------- *)
 
